@@ -66,6 +66,37 @@ structure HornFrag (prog : List Term) (query : Term) : Prop where
   wf : wfT query = true
   small : SLD.maxVar query + 10 ≤ 1000000
 
+/-- a goal of the stage-2 fragment: a Horn goal or the cut -/
+def cutGoal (t : Term) : Bool := t == .atom "!" || hornGoal t
+
+/-- a body (or query) of the stage-2 fragment -/
+def bodyOK (b : Term) : Bool := (SLD.conjuncts b).all cutGoal
+
+/-- a clause of the stage-2 fragment -/
+def clauseOK (c : Term) : Bool :=
+  wfT c && hornHead (SLD.headBody c).1 && bodyOK (SLD.headBody c).2
+
+/-- **the fragment (stage 2)**: stage 1 + `!` in clause bodies (and in the query) -/
+structure CutFrag (prog : List Term) (query : Term) : Prop where
+  clauses : ∀ c ∈ prog, clauseOK c = true
+  goal : bodyOK query = true
+  wf : wfT query = true
+  small : SLD.maxVar query + 10 ≤ 1000000
+
+theorem cutGoal_of_horn {t : Term} (h : hornGoal t = true) : cutGoal t = true := by
+  simp [cutGoal, h]
+
+theorem bodyOK_of_horn {b : Term} (h : hornBody b = true) : bodyOK b = true := by
+  simp only [hornBody, bodyOK, List.all_eq_true] at h ⊢
+  exact fun t ht => cutGoal_of_horn (h t ht)
+
+theorem clauseOK_of_horn {c : Term} (h : hornClause c = true) : clauseOK c = true := by
+  simp only [hornClause, clauseOK, Bool.and_eq_true] at h ⊢
+  exact ⟨h.1, bodyOK_of_horn h.2⟩
+
+theorem CutFrag.of_horn {prog : List Term} {query : Term} (h : HornFrag prog query) : CutFrag prog query :=
+  ⟨fun c hc => clauseOK_of_horn (h.clauses c hc), bodyOK_of_horn h.goal, h.wf, h.small⟩
+
 /-! ## `toRep` -/
 
 theorem mkApp_wf (f : String) (rs : RepList) (h1 : rs.length ≥ 1) (h2 : WFs rs = true) :
@@ -225,8 +256,13 @@ theorem hornGoal_shape {g : Term} (h : hornGoal g = true) :
     · exact Or.inr (Or.inr ⟨f, as, rfl, h, h1⟩)
   | _ => simp [hornGoal] at h
 
-/-- a Horn body is not a disjunction: the compiler sees ONE alternative -/
-theorem altBodies_toRep (b : Term) (h : hornBody b = true) : altBodies (toRep b) = [toRep b] := by
+/-- the shape of a goal of the fragment -/
+theorem cutGoal_cases {g : Term} (h : cutGoal g = true) : g = .atom "!" ∨ hornGoal g = true := by
+  simp only [cutGoal, Bool.or_eq_true, beq_iff_eq] at h
+  exact h
+
+/-- a body of the fragment is not a disjunction: the compiler sees ONE alternative -/
+theorem altBodies_toRep (b : Term) (h : bodyOK b = true) : altBodies (toRep b) = [toRep b] := by
   cases b with
   | app f as =>
     by_cases hf : f = "."
@@ -251,7 +287,9 @@ theorem altBodies_toRep (b : Term) (h : hornBody b = true) : altBodies (toRep b)
             | nil =>
               have : SLD.conjuncts (.app ";" (.cons x (.cons y .nil))) = [.app ";" (.cons x (.cons y .nil))] := by
                 simp [SLD.conjuncts, SLD.wrapVar]
-              simp only [hornBody, this, List.all_cons, List.all_nil, Bool.and_true] at h
+              simp only [bodyOK, this, List.all_cons, List.all_nil, Bool.and_true] at h
+              rcases cutGoal_cases h with h | h
+              · cases h
               rcases hornGoal_shape h with ⟨f, hf', _⟩ | ⟨a, b, hab⟩ | ⟨f, as, hfa, hu, _⟩
               · cases hf'
               · simp at hab
@@ -262,27 +300,83 @@ theorem altBodies_toRep (b : Term) (h : hornBody b = true) : altBodies (toRep b)
       · rfl
   | _ => simp [toRep, altBodies]
 
-/-- every goal of a Horn body is callable and is not the cut -/
-theorem hornBody_goals (b : Term) (h : hornBody b = true) :
-    ∀ g ∈ seqGoals (toRep b), CallableGoal g = true ∧ g ≠ .atom "!" ∧ hornGoal (goalTerm g) = true := by
+theorem hornGoal_not_cut : hornGoal (.atom "!") = false := by
+  simp only [hornGoal, Bool.or_eq_false_iff, beq_eq_false_iff_ne, ne_eq]
+  refine ⟨by decide, ?_⟩
+  cases h : userPred "!" 0 with
+  | false => rfl
+  | true => exact absurd (by decide) (reserved_not_user h)
+
+theorem seqGoals_leaf (r : Rep) (h : ∀ a b, r ≠ .compound "," (.cons a (.cons b .nil))) : seqGoals r = [r] := by
+  unfold seqGoals
+  split
+  · rename_i a b; exact absurd rfl (h a b)
+  · rfl
+
+theorem toRep_not_comma (t : Term) (hne : ∀ a b, t ≠ .app "," (.cons a (.cons b .nil))) :
+    ∀ a b, toRep t ≠ .compound "," (.cons a (.cons b .nil)) := by
+  intro a b heq
+  cases t with
+  | app f as =>
+    by_cases hf : f = "."
+    · subst hf
+      rw [toRep] at heq; unfold mkApp at heq; split at heq
+      · split at heq <;> simp at heq
+      · simp at heq
+    · rw [toRep_app_ne_dot _ _ hf] at heq
+      simp only [Rep.compound.injEq] at heq
+      obtain ⟨rfl, hargs⟩ := heq
+      cases as with
+      | nil => simp [toReps] at hargs
+      | cons x xs =>
+        cases xs with
+        | nil => simp [toReps] at hargs
+        | cons y ys =>
+          cases ys with
+          | nil => exact hne x y rfl
+          | cons _ _ => simp [toReps] at hargs
+  | _ => simp [toRep] at heq
+
+/-- the goals the compiler iterates over are the encodings of the leaves of the ','/2 tree -/
+theorem seqGoals_leaves (b : Term) : ∃ ts : List Term, seqGoals (toRep b) = ts.map toRep ∧
+    SLD.conjuncts b = ts.map SLD.wrapVar := by
+  fun_induction SLD.conjuncts b with
+  | case1 a b iha ihb =>
+    obtain ⟨ts1, h1, h1'⟩ := iha
+    obtain ⟨ts2, h2, h2'⟩ := ihb
+    refine ⟨ts1 ++ ts2, ?_, by simp [h1', h2']⟩
+    rw [toRep_app_ne_dot _ _ (by decide)]
+    simp only [toReps, seqGoals, h1, h2, List.map_append]
+  | case2 t hne =>
+    exact ⟨[t], seqGoals_leaf _ (toRep_not_comma t (fun a b h => hne a b h)), rfl⟩
+
+/-- every goal of a body of the fragment is callable, and is the cut or a Horn goal -/
+theorem bodyOK_goals (b : Term) (h : bodyOK b = true) :
+    ∀ g ∈ seqGoals (toRep b), CallableGoal g = true ∧ (g = .atom "!" ∨ hornGoal (goalTerm g) = true) := by
   intro g hg
-  have hm : goalTerm g ∈ SLD.conjuncts b := by
-    rw [← seqGoals_toRep]; exact List.mem_map_of_mem hg
-  have hh : hornGoal (goalTerm g) = true := by
-    simp only [hornBody, List.all_eq_true] at h
-    exact h _ hm
-  refine ⟨?_, ?_, hh⟩
-  · cases g <;> simp_all [CallableGoal, goalTerm, Rep.abs, hornGoal]
-  · rintro rfl
-    simp only [goalTerm, Rep.abs] at hh
-    rcases hornGoal_shape hh with ⟨f, hf', hf''⟩ | ⟨a, b, hab⟩ | ⟨f, as, hfa, hu, _⟩
-    · simp only [Term.atom.injEq] at hf'
-      subst hf'
-      rcases hf'' with hf'' | hf''
-      · simp at hf''
-      · exact reserved_not_user hf'' (by decide)
-    · cases hab
-    · cases hfa
+  obtain ⟨ts, hts, hconj⟩ := seqGoals_leaves b
+  rw [hts, List.mem_map] at hg
+  obtain ⟨t, ht, rfl⟩ := hg
+  have hh : cutGoal (SLD.wrapVar t) = true := by
+    simp only [bodyOK, List.all_eq_true, hconj] at h
+    exact h _ (List.mem_map_of_mem ht)
+  rw [goalTerm_toRep]
+  rcases cutGoal_cases hh with hc | hc
+  · have ht' : t = .atom "!" := by
+      cases t <;> simp_all [SLD.wrapVar, SLD.call1]
+    subst ht'
+    exact ⟨rfl, Or.inl rfl⟩
+  · refine ⟨?_, Or.inr hc⟩
+    cases t with
+    | var v => simp [toRep, CallableGoal]
+    | atom _ => simp [toRep, CallableGoal]
+    | app f as =>
+      rw [toRep]; unfold mkApp; split
+      · split <;> simp [CallableGoal]
+      · simp [CallableGoal]
+    | int _ => simp [SLD.wrapVar, hornGoal] at hc
+    | flt _ => simp [SLD.wrapVar, hornGoal] at hc
+    | str _ => simp [SLD.wrapVar, hornGoal] at hc
 
 /-- the shape of the compiled form of a clause of the fragment -/
 structure HeadLayout (h : Term) (cl : Clause) (hargs : RepList) : Prop where
@@ -317,13 +411,13 @@ theorem hornHead_toRep {h : Term} (hh : hornHead h = true) (hw : wfT h = true) :
 
 /-- **a rule of the fragment** compiles to one clause: head code, `enter`, the code of the body
     goals — which are the reference's conjuncts of the body — in order, `exit` -/
-theorem horn_rule_layout (h b : Term) (hc : hornClause (.app ":-" (.cons h (.cons b .nil))) = true) :
+theorem horn_rule_layout (h b : Term) (hc : clauseOK (.app ":-" (.cons h (.cons b .nil))) = true) :
     ∃ cl hargs bops gs, compile (toRep (.app ":-" (.cons h (.cons b .nil)))) = .ok [cl] ∧
       HeadLayout h cl hargs ∧
       cl.code = headCode hargs {} ++ Op.enter :: (bops ++ [Op.exit]) ∧
       BodySem cl.vars bops gs ∧ gs.map goalTerm = SLD.conjuncts b ∧
-      (∀ g ∈ gs, g ≠ .atom "!" ∧ hornGoal (goalTerm g) = true) := by
-  simp only [hornClause, SLD.headBody, Bool.and_eq_true, wfT, wfAs, Bool.and_true] at hc
+      (∀ g ∈ gs, g = .atom "!" ∨ hornGoal (goalTerm g) = true) := by
+  simp only [clauseOK, SLD.headBody, Bool.and_eq_true, wfT, wfAs, Bool.and_true] at hc
   obtain ⟨⟨⟨hwh, hwb⟩, hh⟩, hb⟩ := hc
   obtain ⟨hch, hwfh, hname, hargs, huser, _⟩ := hornHead_toRep hh hwh
   have hwfb := toRep_wf b hwb
@@ -338,7 +432,7 @@ theorem horn_rule_layout (h b : Term) (hc : hornClause (.app ":-" (.cons h (.con
     obtain ⟨alt, hm, g, hg, hcg⟩ := (error_statement (toRep h) (toRep b) hwfh hwfb hch).1 ⟨e, hcomp⟩
     rw [halt, List.mem_singleton] at hm
     subst hm
-    rw [(hornBody_goals b hb g hg).1] at hcg
+    rw [(bodyOK_goals b hb g hg).1] at hcg
     cases hcg
   | ok cs =>
     obtain ⟨hlen, _⟩ := rule_statement (toRep h) (toRep b) cs hwfh hwfb hch hcomp
@@ -350,10 +444,10 @@ theorem horn_rule_layout (h b : Term) (hc : hornClause (.app ":-" (.cons h (.con
       ⟨wfs_headArgs _ hwfh, hpre, hnd, by rw [hn, hname], ?_, hargs, huser, hh⟩, hcode, hsem, seqGoals_toRep b, ?_⟩
     · rw [har, ← hargs, absArgs_toList_length]
     · intro g hg
-      exact (hornBody_goals b hb g hg).2
+      exact (bodyOK_goals b hb g hg).2
 
 /-- **a fact of the fragment** compiles to one clause: head code, `exit` -/
-theorem horn_fact_layout (c : Term) (hc : hornClause c = true)
+theorem horn_fact_layout (c : Term) (hc : clauseOK c = true)
     (hne : ∀ h b, c ≠ .app ":-" (.cons h (.cons b .nil))) :
     ∃ cl hargs, compile (toRep c) = .ok [cl] ∧ HeadLayout c cl hargs ∧
       cl.code = headCode hargs {} ++ [Op.exit] := by
@@ -362,7 +456,7 @@ theorem horn_fact_layout (c : Term) (hc : hornClause c = true)
     split
     · exact absurd rfl (hne _ _)
     · rfl
-  simp only [hornClause, hhb, Bool.and_eq_true] at hc
+  simp only [clauseOK, hhb, Bool.and_eq_true] at hc
   obtain ⟨⟨hw, hh⟩, _⟩ := hc
   obtain ⟨hch, hwf, hname, hargs, huser, hne'⟩ := hornHead_toRep hh hw
   cases hcomp : compile (toRep c) with
